@@ -254,6 +254,9 @@ class Check:
                     self.violations.append(it)
         rdir = os.path.join(VERIF, "evidence", "replay")
         os.makedirs(rdir, exist_ok=True)
+        for old in os.listdir(rdir):
+            if old.startswith(self.prop + "_") and old.endswith(".json"):
+                os.remove(os.path.join(rdir, old))
         seen = set()
         nviol = 0
         for v in self.violations:
